@@ -230,15 +230,26 @@ def run(repo):
 
     rel = "demo/src/reader.rs"
     src = exlib.strip_rust_comments(exlib.read(repo, rel))
-    body = exlib.fn_body(src, "read_chunk", 0, rel)
-    s += "/-- integer literals of `Reader::read_chunk` in %s, in source order -/\n" % rel
-    s += "def lits_read_chunk : List Nat := %s\n\n" % exlib.lean_nat_list(exlib.int_literals(body))
+    cut = src.find("#[cfg(test)]")
+    if cut >= 0:
+        src = src[:cut]
+    body = exlib.with_helpers(src, exlib.fn_body(src, "read_chunk", 0, rel), rel, {"read_chunk"})
+    s += "/-- significant numbers of `Reader::read_chunk` and the private helpers it calls in %s (sorted set\nof integer literals and named constants, without 0 and 1) -/\n" % rel
+    s += "def lits_read_chunk : List Nat := %s\n\n" % exlib.lean_nat_list(exlib.significant_set(body, exlib.file_consts(src, rel)))
     s += "/-- does `read_chunk` store message integers with `to_le_bytes`? -/\ndef read_chunk_le : Bool := %s\n\n" % (
         "true" if "to_le_bytes" in body else "false")
-    m = re.search(r"if\s+previous\s*(<=|<|>=|>)\s*t\b", body)
+    # the comparison that guards `NotIncreasingTick`, in either spelling (`if a OP b { return Err(..) }`,
+    # match guard `.. if a OP b => Err(..)`), normalised to `previous OP new`
+    m = re.search(r"([A-Za-z_][A-Za-z0-9_]*)\s*(<=|<|>=|>)\s*([A-Za-z_][A-Za-z0-9_]*)\s*(?:\{|=>)\s*(?:return\s+)?Err\(\s*(?:ReadError::)?NotIncreasingTick", body)
     if not m:
         raise exlib.ExtractError("tick comparison of read_chunk not found in %s" % rel)
-    s += "/-- the non-increasing tick test of `read_chunk` (`previous <op> t`) -/\ndef read_tick_test : String := \"%s\"\n\n" % m.group(1)
+    lhs, op, rhs = m.group(1), m.group(2), m.group(3)
+    is_prev = lambda n: any(k in n.lower() for k in ("prev", "current", "last", "old"))
+    if is_prev(rhs) and not is_prev(lhs):
+        op = {"<=": ">=", "<": ">", ">=": "<=", ">": "<"}[op]
+    elif not is_prev(lhs):
+        raise exlib.ExtractError("cannot tell which side of `%s %s %s` is the previous tick in %s" % (lhs, op, rhs, rel))
+    s += "/-- the non-increasing tick test of `read_chunk`, normalised to `previous <op> new` -/\ndef read_tick_test : String := \"%s\"\n\n" % op
 
     rel = "demo/src/ddnet/writer.rs"
     src = exlib.strip_rust_comments(exlib.read(repo, rel))
